@@ -1,7 +1,7 @@
 """Run-time versions of the contract clauses, evaluated on the REAL objects (z3-free, runs under /venv/bin/python).
 Used by the history searchers (counterexamples for failed obligations) and by the replay files they emit."""
 import sys, json, math, itertools
-sys.path.insert(0, "/repo")
+sys.path.insert(0, __import__("os").environ.get("PYVC_REPO", "/repo"))
 import numpy as np
 
 PARTS = ["BinaryPartition", "RandomBinaryPartition", "DimensionBinaryPartition", "KaryPartition", "RandomKaryPartition"]
